@@ -523,6 +523,7 @@ class Construct(object):
 
             from construct import *
             from construct.lib import *
+            from construct.core import BytesIOWithOffsets
             from io import BytesIO
             import struct
             import collections
@@ -530,6 +531,8 @@ class Construct(object):
 
             def restream(data, func):
                 return func(BytesIO(data))
+            def restream_at(io, offset, data, func):
+                return func(BytesIOWithOffsets(data, io, offset))
             def reuse(obj, func):
                 return func(obj)
 
@@ -4921,7 +4924,7 @@ class Prefixed(Subconstruct):
 
     def _emitparse(self, code):
         sub = self.lengthfield.sizeof() if self.includelength else 0
-        return f"restream(io.read(({self.lengthfield._compileparse(code)})-({sub})), lambda io: ({self.subcon._compileparse(code)}))"
+        return f"reuse(({self.lengthfield._compileparse(code)})-({sub}), lambda length: restream_at(io, io.tell(), io.read(length), lambda io: ({self.subcon._compileparse(code)})))"
 
     def _emitseq(self, ksy, bitwise):
         return [
@@ -5043,7 +5046,7 @@ class FixedSized(Subconstruct):
         return length
 
     def _emitparse(self, code):
-        return f"restream(io.read({self.length}), lambda io: ({self.subcon._compileparse(code)}))"
+        return f"restream_at(io, io.tell(), io.read({self.length}), lambda io: ({self.subcon._compileparse(code)}))"
 
     def _emitfulltype(self, ksy, bitwise):
         return dict(size=repr(self.length).replace("this.",""), **self.subcon._compilefulltype(ksy, bitwise))
